@@ -744,40 +744,107 @@ def binders(toks):
     return out
 
 
-def alpha_normalise(toks, expected, log):
+def _param_name_idx(sig_toks):
+    """indices of the identifier tokens that NAME the parameters of a `fn` signature (pattern side of every parameter)"""
+    i = 0
+    while not (sig_toks[i].kind == 'ident' and sig_toks[i].text == 'fn'):
+        i += 1
+    j = i
+    while sig_toks[j].text != '(':
+        j += 1
+    e = match_close(sig_toks, j)
+    out = []
+    depth = 0
+    adepth = 0
+    in_pat = True
+    for k in range(j + 1, e):
+        t = sig_toks[k]
+        if t.kind == 'punct' and t.text in '([{':
+            depth += 1
+        elif t.kind == 'punct' and t.text in ')]}':
+            depth -= 1
+        elif t.kind == 'punct' and t.text == '<':
+            adepth += 1
+        elif t.kind == 'punct' and t.text == '>':
+            adepth = max(0, adepth - 1)
+        elif t.kind == 'punct' and t.text == '>>':
+            adepth = max(0, adepth - 2)
+        if depth == 0 and adepth == 0 and t.kind == 'punct' and t.text == ',':
+            in_pat = True
+            continue
+        if depth == 0 and t.kind == 'punct' and t.text == ':':
+            in_pat = False
+            continue
+        if in_pat and t.kind == 'ident' and t.text not in _KEYWORDS and (t.text[0].islower() or t.text[0] == '_'):
+            out.append(k)
+    return out
+
+
+def _norm_sig(toks):
+    return re.sub(r'^(pub(\([a-z]+\))? )?', '', re.sub(r'\s+', ' ', join(toks)).strip())
+
+
+def param_renaming(sig_toks, recorded_sig):
+    """R10 for parameters: if the signature differs from the recorded one ONLY in the names of parameters, the list of
+    (current name, recorded name) pairs in parameter order; otherwise None."""
+    try:
+        rec_toks = lex(recorded_sig)
+        a, b = _param_name_idx(sig_toks), _param_name_idx(rec_toks)
+    except Exception:  # noqa: BLE001
+        return None
+    if len(a) != len(b):
+        return None
+    ren = list(sig_toks)
+    for x, y in zip(a, b):
+        ren[x] = Tok(ren[x].kind, rec_toks[y].text, ren[x].sp)
+    if _norm_sig(ren) != _norm_sig(rec_toks):
+        return None
+    return [(sig_toks[x].text, rec_toks[y].text) for x, y in zip(a, b)]
+
+
+def alpha_normalise(toks, expected, log, param_pairs=None):
     """If the function binds the same NUMBER of locals as when the sidecar was written but under other names, rename them back
     (token-wise; field accesses, paths and struct-literal field names are left alone).  Anything unexpected: no change."""
     cur = binders(toks)
+    if expected is None:
+        expected = list(cur)
+    if param_pairs:                      # parameters are binders too (renamed parameters: see param_renaming)
+        cur = [c for c, _ in param_pairs] + cur
+        expected = [e for _, e in param_pairs] + list(expected)
     if not expected or cur == expected or len(cur) != len(expected):
         return toks
-    mp = {}
+    full = {}
     for c, e in zip(cur, expected):
-        if c != e:
-            if mp.get(c, e) != e:
-                return toks             # one name, two targets: not a pure renaming
-            mp[c] = e
-    if len(set(mp.values())) != len(mp):
-        return toks
-    idents = {t.text for t in toks if t.kind == 'ident'}
+        if full.get(c, e) != e:
+            return toks                 # one name, two targets (also: kept at one binder, renamed at another): not a pure renaming
+        full[c] = e
+    if len(set(full.values())) != len(full):
+        return toks                     # two names, one target
+    mp = {c: e for c, e in full.items() if c != e}
+    idents = {t.text for k, t in enumerate(toks) if t.kind == 'ident' and not _field_position(toks, k)}   # field / method names cannot capture a local
     for c, e in mp.items():
-        if e in idents and e not in mp:   # the target name is in use for something else: renaming could capture
-            return toks
-        if c in expected:                 # the old name is one of the recorded names: a swap, leave it to the verifier
+        if e in idents and e not in mp:   # the target name is in use for something that is not renamed away: renaming could capture
             return toks
     out = []
     for k, t in enumerate(toks):
         if t.kind == 'ident' and t.text in mp:
-            prev = toks[k - 1] if k > 0 else None
-            nxt = toks[k + 1] if k + 1 < len(toks) else None
-            after_dot = prev is not None and prev.kind == 'punct' and prev.text in ('.', '::')
-            field_name = nxt is not None and nxt.kind == 'punct' and nxt.text == ':' and prev is not None and prev.kind == 'punct' and prev.text in ('{', ',') \
-                and not _in_let_pattern(toks, k)
-            if not after_dot and not field_name:
+            if not _field_position(toks, k):
                 out.append(Tok(t.kind, mp[t.text], t.sp))
                 continue
         out.append(t)
     log.hit('R10', len(mp))
     return out
+
+
+def _field_position(toks, k):
+    """token k is a field / method / path-segment name (after `.` or `::`) or the field name of a struct literal (`{ name: ..` / `, name: ..`
+    outside a `let` pattern): such an occurrence is not a use of a local variable"""
+    prev = toks[k - 1] if k > 0 else None
+    nxt = toks[k + 1] if k + 1 < len(toks) else None
+    after_dot = prev is not None and prev.kind == 'punct' and prev.text in ('.', '::')
+    field_name = nxt is not None and nxt.kind == 'punct' and nxt.text == ':' and prev is not None and prev.kind == 'punct' and prev.text in ('{', ',') \
+        and not _in_let_pattern(toks, k)
+    return after_dot or field_name
 
 
 def _in_let_pattern(toks, k):
@@ -798,11 +865,21 @@ def _in_let_pattern(toks, k):
     return False
 
 
-def weave(fn, sc, log, lost, unit_rewrites=(), expected_locals=None):
+def weave(fn, sc, log, lost, unit_rewrites=(), expected_locals=None, param_pairs=None):
     """fn: dict from Crate.find_fn; sc: Sidecar.  Returns list of text lines (Verus)."""
     btoks = strip_attrs(fn['body'], log)
-    if expected_locals:
-        btoks = alpha_normalise(btoks, expected_locals, log)
+    renamed_params = bool(param_pairs) and any(c != e for c, e in param_pairs)
+    if expected_locals or renamed_params:
+        before_r10 = btoks
+        btoks = alpha_normalise(btoks, expected_locals, log, param_pairs if renamed_params else None)
+        if renamed_params:
+            if btoks is before_r10:
+                raise ExtractionError(f'signature of `{sc.name}` changed: parameters renamed {[(c, e) for c, e in param_pairs if c != e]} and the body '
+                                      f'cannot be renamed back consistently')
+            sig = list(fn['sig'])
+            for k, (c, e) in zip(_param_name_idx(sig), param_pairs):
+                sig[k] = Tok(sig[k].kind, e, sig[k].sp)
+            fn = dict(fn, sig=sig)
     # D2: `#[async_recursion]` wraps the body in `Box::pin(async move { BODY })`
     if len(btoks) > 9 and [t.text for t in btoks[:7]] == ['Box', '::', 'pin', '(', 'async', 'move', '{'] \
             and btoks[-1].text == ')' and btoks[-2].text == '}' and match_close(btoks, 6) == len(btoks) - 2:
